@@ -307,8 +307,9 @@ func topK[K nodeKey, V any](t Tree[K, V], k uint) iter.Seq2[K, V] {
 			return
 		}
 
+		left := k // per pass, so that the sequence can be iterated again
 		for key, val := range t.Backward() {
-			if k == 0 {
+			if left == 0 {
 				return
 			}
 
@@ -316,7 +317,7 @@ func topK[K nodeKey, V any](t Tree[K, V], k uint) iter.Seq2[K, V] {
 				break
 			}
 
-			k--
+			left--
 		}
 	}
 }
@@ -327,8 +328,9 @@ func bottomK[K nodeKey, V any](t Tree[K, V], k uint) iter.Seq2[K, V] {
 			return
 		}
 
+		left := k // per pass, so that the sequence can be iterated again
 		for key, val := range t.All() {
-			if k == 0 {
+			if left == 0 {
 				return
 			}
 
@@ -336,7 +338,7 @@ func bottomK[K nodeKey, V any](t Tree[K, V], k uint) iter.Seq2[K, V] {
 				break
 			}
 
-			k--
+			left--
 		}
 	}
 }
